@@ -7,6 +7,7 @@ import (
 	"sort"
 
 	"github.com/ja7ad/otp"
+	"github.com/ja7ad/otp/internal/verifh"
 	"github.com/ja7ad/otp/internal/verifrt"
 	"pgregory.net/rapid"
 )
@@ -531,7 +532,11 @@ func GenPlan(t *rapid.T, prop string) *Plan {
 		}
 		nc := rapid.IntRange(1, maxCalls).Draw(t, "nCalls")
 		if longHistory {
-			nc = rapid.SampledFrom([]int{70, 130, 260, 520}).Draw(t, "nCallsLong")
+			lens := []int{70, 130, 260, 520}
+			if verifh.Thorough() {
+				lens = []int{70, 260, 520, 1100, 2300}
+			}
+			nc = rapid.SampledFrom(lens).Draw(t, "nCallsLong")
 		}
 		var calls []Call
 		for j := 0; j < nc; j++ {
@@ -550,7 +555,11 @@ func GenPlan(t *rapid.T, prop string) *Plan {
 		// thousands of times in a row - at most one such call per plan
 		ti := rapid.IntRange(0, nt-1).Draw(t, "repeatTask")
 		ci := rapid.IntRange(0, len(p.Tasks[ti])-1).Draw(t, "repeatCall")
-		p.Tasks[ti][ci].Repeat = rapid.SampledFrom([]int{300, 1100, 4200, 9000}).Draw(t, "repeat")
+		reps := []int{300, 1100, 4200, 9000}
+		if verifh.Thorough() {
+			reps = []int{300, 1100, 4200, 9000, 17000, 70000}
+		}
+		p.Tasks[ti][ci].Repeat = rapid.SampledFrom(reps).Draw(t, "repeat")
 	}
 	if weighted(t, "warm?", 2, 1) == 1 {
 		nw := rapid.IntRange(1, 10).Draw(t, "nWarm")
